@@ -34,6 +34,18 @@ theorem signal_tables_match_source :
     ∧ Gen.killSites.1 = Gen.killSites.2 := by
   decide
 
+/-- **the signal handler listens for every signal the property names, and turns each into the event whose name it bears**
+    (signal.rs, unix, as registered and mapped on this run): SIGINT, SIGHUP, SIGTERM and SIGQUIT each become their own
+    shutdown event, SIGTSTP and SIGCONT the job-control events — so with `shutdown_forwarded_same_signal` a test process
+    receives the very signal nextest received -/
+theorem shutdown_signals_are_handled :
+    (∀ e : Shut, (sigName (shutSig e), "Shutdown/" ++ shutName e) ∈ Gen.signalHandlerTable) ∧
+    ("SIGTSTP", "JobControl/Stop") ∈ Gen.signalHandlerTable ∧ ("SIGCONT", "JobControl/Continue") ∈ Gen.signalHandlerTable ∧
+    -- no signal is registered twice
+    (Gen.signalHandlerTable.map (·.1)).Nodup := by
+  refine ⟨?_, by decide, by decide, by decide⟩
+  intro e; cases e <;> decide
+
 /-- **Every shutdown signal is forwarded as that same signal**: the four events map to four distinct
     signals, none of them SIGKILL, when the grace period is not zero -/
 theorem shutdown_forwarded_same_signal (e : Shut) (g : Nat) (hg : g ≠ 0) :
